@@ -203,11 +203,25 @@ def run_job(job, rec):
                 rec.check(abs((cg[1] - cg[0]) - integ) <= tol_int,
                           "cdf-not-integral-of-pdf", lambda: f"cdf({b!r}) - cdf({a!r}) = {cg[1] - cg[0]!r} but the density integrates to {integ!r}", rec.context)
 
+        # integer-typed evaluation points (python int, integer arrays) are legitimate inputs
+        if np.abs(ss).max() < 1e15 and ss[-1] - ss[0] > 4:
+            xi = np.unique(np.round(rng.uniform(ss[0] - 3 * h, ss[-1] + 3 * h, size=12)).astype(np.int64))
+            pa, pb = guarded(kde, xi), guarded(kde, xi.astype(float))
+            ca, cb = guarded(kde.cdf, xi), guarded(kde.cdf, xi.astype(float))
+            s1, s2 = guarded(kde, int(xi[0])), guarded(kde, float(xi[0]))
+            rec.count("integer_query_cases")
+            okd = not any(isinstance(v, Raised) for v in (pa, pb, ca, cb, s1, s2)) and np.array_equal(np.atleast_1d(pa), np.atleast_1d(pb)) \
+                and np.array_equal(np.atleast_1d(ca), np.atleast_1d(cb)) and float(s1) == float(s2)
+            rec.check(okd, "depends-on-dtype-of-points", lambda: f"integer-typed evaluation points give {pa!r}, the same points as floats give {pb!r}", rec.context)
+
         # history: the same query array modified in place and passed again
         qq = q.copy()
         guarded(kde, qq)
         guarded(kde.cdf, qq)
-        qq += 0.37 * h
+        qq -= 0.11 * h
+        guarded(kde, qq)
+        guarded(kde.cdf, qq)
+        qq += 0.48 * h
         p_again, c_again = guarded(kde, qq), guarded(kde.cdf, qq)
         p_fresh, c_fresh = guarded(kde, qq.copy()), guarded(kde.cdf, qq.copy())
         rec.count("in_place_query_updates")
